@@ -438,6 +438,12 @@ Theorem c04_arg_index_sites_owned : forallb (site_owned registrations) arg_index
 Proof. exact arg_index_sites_owned. Qed.
 Print Assumptions c04_arg_index_sites_owned.
 
+(* the same for constant indexes into other slices (words[0], states[0], possibilities[0], ...) of builtin.go and
+   tests.go: the len guards around each site imply the index for every length (two sites justified by name) *)
+Theorem c04_local_index_sites_safe : forallb local_site_ok local_index_sites = true.
+Proof. exact local_index_sites_safe. Qed.
+Print Assumptions c04_local_index_sites_safe.
+
 Theorem c04_dynamic_index_sites_covered : dynamic_ok dynamic_sites = true.
 Proof. exact dynamic_sites_covered. Qed.
 Print Assumptions c04_dynamic_index_sites_covered.
